@@ -709,10 +709,19 @@ func (m *Module) EmitGenConvert(x Value, typ ValueType) (insts []wat.Inst) {
 			insts = append(insts, wat.NewInstConvert_i32_wrap_i64())
 
 		case xt.Equal(m.F32):
-			insts = append(insts, wat.NewInstConvert_i32_trunc_f32_s())
+			if typ.Equal(m.U32) {
+				// an unsigned target needs the unsigned truncation: values >= 1<<31 are in range
+				insts = append(insts, wat.NewInstConvert_i32_trunc_f32_u())
+			} else {
+				insts = append(insts, wat.NewInstConvert_i32_trunc_f32_s())
+			}
 
 		case xt.Equal(m.F64):
-			insts = append(insts, wat.NewInstConvert_i32_trunc_f64_s())
+			if typ.Equal(m.U32) {
+				insts = append(insts, wat.NewInstConvert_i32_trunc_f64_u())
+			} else {
+				insts = append(insts, wat.NewInstConvert_i32_trunc_f64_s())
+			}
 		}
 		return
 
@@ -750,10 +759,10 @@ func (m *Module) EmitGenConvert(x Value, typ ValueType) (insts []wat.Inst) {
 			break
 
 		case xt.Equal(m.F32):
-			insts = append(insts, wat.NewInstConvert_i64_trunc_f32_s())
+			insts = append(insts, wat.NewInstConvert_i64_trunc_f32_u())
 
 		case xt.Equal(m.F64):
-			insts = append(insts, wat.NewInstConvert_i64_trunc_f64_s())
+			insts = append(insts, wat.NewInstConvert_i64_trunc_f64_u())
 		}
 		return
 
